@@ -366,7 +366,7 @@ Proof.
         replace (Z.of_nat (length acc + 1 + 1)) with (ulen + 2) in E, Hf by lia.
         exists dfin. split.
         * rewrite E. cbn [length]. f_equal. f_equal. lia.
-        * rewrite <- !app_assoc in Hf. rewrite <- app_assoc. exact Hf. }
+        * rewrite <- !app_assoc in Hf. exact Hf. }
     (* three bytes *)
     destruct (Z.ltb_spec (ulen + 2) buflen) as [Hr3|_]; [|apply Hnil; split; assumption].
     rewrite wr_ok by lia. cbn [bind]. rewrite wr_ok by (rewrite zset_length; lia). cbn [bind].
@@ -392,15 +392,21 @@ Proof.
       replace (Z.of_nat (length acc + 1 + 1 + 1)) with (ulen + 3) in E, Hf by lia.
       exists dfin. split.
       * rewrite E. cbn [length]. f_equal. f_equal. lia.
-      * rewrite <- !app_assoc in Hf. rewrite <- app_assoc. exact Hf.
+      * rewrite <- !app_assoc in Hf. exact Hf.
 Qed.
 
 (* the field bytes GetVarStr hands to the converter *)
+Lemma skipn_add {A} : forall a b (d:list A), skipn b (skipn a d) = skipn (a + b) d.
+Proof.
+  induction a as [|a IH]; intros b d; [reflexivity|].
+  destruct d as [|x d]; [rewrite !skipn_nil; reflexivity|]. cbn [skipn Nat.add]. apply IH.
+Qed.
+
 Lemma split_at (d:list Z) (off len:nat) : (off + len <= length d)%nat ->
   d = firstn off d ++ firstn len (skipn off d) ++ skipn (off + len) d.
 Proof.
   intros H. rewrite <- (firstn_skipn off d) at 1. f_equal.
-  rewrite <- (firstn_skipn len (skipn off d)) at 1. f_equal. rewrite skipn_skipn. f_equal. lia.
+  rewrite <- (firstn_skipn len (skipn off d)) at 1. f_equal. apply skipn_add.
 Qed.
 
 Lemma ucs2_to_utf8_spec m dest off strlen nul : payload m -> 0 <= off -> 0 <= strlen -> off + strlen <= 223 ->
@@ -422,7 +428,7 @@ Proof.
     try reflexivity; try lia.
   - cbn [app]. lia.
   - split; [reflexivity|]. intros v. pose proof (zset_splice dest 0 [] v ltac:(cbn [length]; lia)) as H0. rewrite splice_nil in H0. exact H0.
-  - cbn [app] in E. rewrite E. cbn [bind fst snd]. fold out. cbn [app] in Hz. fold out in Hz.
+  - cbn [app] in E, Hz. change (u2utf_pure F 0 (size - 1) nul) with out in *. rewrite E. cbn [bind fst snd].
     rewrite wr_ok by lia. rewrite Z.add_0_l. rewrite Hz. reflexivity.
 Qed.
 
@@ -445,7 +451,7 @@ Proof.
         (split; [lia|]); unfold MaxDataLen; lia. }
   apply orb_false_iff in Ebad. destruct Ebad as [Ebad E4]. apply orb_false_iff in Ebad. destruct Ebad as [Ebad E3].
   apply orb_false_iff in Ebad. destruct Ebad as [Ea Eb].
-  apply Z.leb_gt in Ea. apply Z.geb_leb in E4. apply Z.leb_gt in E4.
+  apply Z.leb_gt in Ea. rewrite Z.geb_leb in E4. apply Z.leb_gt in E4.
   (* the length byte comes out of the payload, so it is a byte only if the payload holds bytes: clamp makes it irrelevant *)
   set (len1 := len - 2).
   set (len2 := if len1 + i2 >? mlen m then (mlen m - i2) mod 256 else len1).
